@@ -7,6 +7,8 @@ from vf import core
 from vf.monitors import c07, suite
 
 LEVEL = "exploration"
+import contextlib
+import io
 PROPS = ("C10",)
 replay_run = c07.replay
 
@@ -100,6 +102,28 @@ def shard_files(acc, prop="C10", seed=0, shard=0, n=50):
             acc.count("factor_files")
             if shard == 0 and i in (0, 7):
                 acc.sample({"factor_file": lines, "point_masses_per_object": k, "objects": nroots})
+            # a factor type the file does not list falls back to 'every point mass of every other object' (with a warning)
+            handler = TwoLeafUnitEventHandler(potential=InversePowerPotential(power=2.0, prefactor=1.0))
+            with contextlib.redirect_stdout(io.StringIO()), contextlib.redirect_stderr(io.StringIO()):
+                tagger = FactorTypeMapInStateTagger(create=[], trash=[], event_handler=handler, number_event_handlers=1,
+                                                    factor_type_maps=ftm, tag="x", factor_type_maps_label="omega_not_in_file")
+                tagger.initialize()
+            for r in range(nroots):
+                for a in range(k):
+                    ident = (r, a) if k > 1 else (r,)
+                    root = Node(Unit(identifier=(r,), position=[0.1] * 3, velocity=[1.0, 0, 0]), weight=1)
+                    if k > 1:
+                        root.add_child(Node(Unit(identifier=ident, position=[0.1] * 3, velocity=[1.0, 0, 0]), weight=1 / k))
+                    got = sorted(tuple(sorted(x)) for x in tagger.yield_identifiers_send_event_time([root]))
+                    want = sorted(tuple(sorted((ident, (r2, b) if k > 1 else (r2,)))) for r2 in range(nroots) if r2 != r
+                                  for b in range(k))
+                    acc.count("fallback_map_checks")
+                    if got != want:
+                        acc.violation("C10:factor-file-in-states",
+                                      f"factor type missing from the file {lines} (all-pairs fallback), active {ident} of "
+                                      f"{nroots} objects x {k}: got {got[:4]}... ({len(got)}), expected {want[:4]}... ({len(want)})",
+                                      {"kind": "file", "lines": lines, "k": k, "nroots": nroots, "label": "omega_not_in_file"})
+                        break
             for lab, (local, sets) in used.items():
                 if k == 1:
                     continue  # without composite objects the file is ignored by design (all pairs interact)
